@@ -213,7 +213,16 @@ def main(argv):
         seed = int(os.environ.get("VERIF_SEED", "0"))
     except ValueError:
         seed = 0
-    return run(a.prop.upper(), tier, seed, a.replay)
+    try:
+        return run(a.prop.upper(), tier, seed, a.replay)
+    except AnalysisBroken as e:
+        print("ANALYSIS-BROKEN property=%s: %s" % (a.prop.upper(), e))
+        return 2
+    except Exception:
+        import traceback
+        traceback.print_exc()
+        print("ANALYSIS-BROKEN property=%s: internal error in the checker (see traceback)" % a.prop.upper())
+        return 2
 
 
 if __name__ == "__main__":
